@@ -11,7 +11,8 @@ check("C20",
       "otherwise, never trap/UB) and are instantiated for all 15 functions. The generated model, the real fallbacks and the real builtins are "
       "run on the boundary cross-product and a seeded sample and compared case by case.",
       "Trusted: Lean kernel; the C-expression translator; __builtin_*_overflow semantics = CArith.spec (cross-checked); LP64. "
-      "Map/vector/buffer refinement: see DESIGN 6 C20 for current coverage.",
+      "Partial: only the checked-arithmetic half of the property is modelled and proved. The map / vector / buffer refinement is not built: libks/map.c is "
+      "not checked at all, vectors and buffers only through the arena harness of C19 (contents against expectations, no theorem). See DESIGN 11.3.",
       "DESIGN.md#c20")
 
 check("C09",
